@@ -30,7 +30,15 @@ def independence_match(X, Y, Z, independencies, **kwargs):
     -------
     p-value: float (Fixed to 0 since it is always confident)
     """
-    return IndependenceAssertion(X, Y, Z) in independencies
+    query = IndependenceAssertion(X, Y, Z)
+    for ind in independencies.get_assertions():
+        # (X _|_ Y | Z) follows by decomposition from (X' _|_ Y' | Z) with X <= X', Y <= Y'
+        if ind.event3 == query.event3 and (
+            (query.event1 <= ind.event1 and query.event2 <= ind.event2)
+            or (query.event1 <= ind.event2 and query.event2 <= ind.event1)
+        ):
+            return True
+    return False
 
 
 def chi_square(X, Y, Z, data, boolean=True, **kwargs):
